@@ -20,12 +20,14 @@ from vlib.shrink import ddmin
 META = {
     'level_text': 'Theorems for all descriptions (identifier maps), all event histories (lines incl. garbage, unknown identifiers, '
                   'shorthand, malformed data, registrations and unregistrations in between), all import oracles and all callback '
-                  'behaviours: cache_eq_last_message, callbacks_once_in_order (history satisfies Spec.Mirrors: one block per '
-                  'effective line, every live registration of the three levels exactly once, immediate call-backs on registration), '
-                  'timestamp_not_future, rebuilt_error (class of the report, InternalError for unknown classes, text kept), '
-                  'ineffective_changes_nothing, e2e_write/e2e_read over abstract codecs with the round-trip law as hypothesis.  '
-                  'The model is tied to frappy/client/__init__.py and errors.py by a correspondence run on the real receive loop; '
-                  'the Lean monitor judges every recorded history.',
+                  'behaviours: cache_eq_last_message (cache entry = import of the last message for the parameter), '
+                  'callbacks_once_in_order (the run is a concatenation of blocks satisfying Spec.Mirrors: every live registration of '
+                  'the three levels exactly once per effective line, immediate call-backs on registration, nothing otherwise), '
+                  'timestamp_not_future / timestamps_not_future_run, rebuilt_error + standard_classes_kept, '
+                  'ineffective_changes_nothing, accepted_is_import, e2e_read / e2e_write over abstract codecs with the round-trip '
+                  'laws as hypotheses, judge_iff (the monitor decides the specification), tables_ok (by decide on the generated '
+                  'tables).  The model is tied to frappy/client/__init__.py and errors.py by a correspondence run on the real '
+                  'receive loop, compared event by event; the Lean monitor judges every recorded history.',
     'level_note': 'Trusted: Lean kernel + axioms propext/Classical.choice/Quot.sound; tables regenerated from the source; '
                   'decode_msg (C07) and datatype import/export (C01/C02) are oracles; part (b) (real TCP server, real client, proxy) '
                   'is a test, not a proof.',
@@ -1131,12 +1133,18 @@ def run(ctx):
     nvals = ctx.budget(200, 5000)
     per_node = 10
     done = 0
+    import random
+    idx = 0
     while done < nvals:
-        fails = e2e_case(rng, per_node, with_proxy=(done // per_node) % 2 == 1, res=res)
+        sub = f'{PROP}:e2e:{ctx.seed}:{int(ctx.escalated)}:{ctx.tier}:{idx}'      # every node has its own PRNG: replayable alone
+        with_proxy = idx % 2 == 1
+        fails = e2e_case(random.Random(sub), per_node, with_proxy=with_proxy, res=res)
+        idx += 1
         done += per_node
         res.traces += per_node
         for f in fails:
-            res.violations.append({'sig': f['sig'], 'what': f['what'], 'case': {'kind': 'e2e', 'detail': f['detail']},
+            res.violations.append({'sig': f['sig'], 'what': f['what'],
+                                   'case': {'kind': 'e2e', 'sub': sub, 'nvalues': per_node, 'with_proxy': with_proxy, 'sig': f['sig']},
                                    'detail': f['detail']})
     left = leftover_threads(before)
     if left:
@@ -1150,9 +1158,13 @@ def replay(ctx, rp):
     patch_version()
     case = rp['case']
     if case['kind'] == 'e2e':
-        print('end-to-end failures are re-run by the generator: VERIF_SEED=%s ./check C12' % rp.get('seed'))
-        print(json.dumps(case, indent=1))
-        return 1
+        import random
+        fails = e2e_case(random.Random(case['sub']), case['nvalues'], with_proxy=case['with_proxy'], res=Result())
+        for f in fails:
+            print(f['sig'], '-', f['what'])
+        same = [f for f in fails if f['sig'] == case.get('sig')]
+        print(f'{len(fails)} end-to-end failures on this generated node, {len(same)} with the recorded signature {case.get("sig")}')
+        return 1 if same else 0
     if case['kind'] == 'wake':
         obs = impl_wake(case['desc'], case['case'])
         a = ctx.driver.batch([{'p': PROP, 'k': 'judge_wake', 'before': obs['before'], 'after': obs['after'], 'calls': obs['calls']}])[0]
